@@ -43,7 +43,14 @@ Definition C17_full_statement : Prop :=
    annotations, closed + linkable) /\ spec_names ("all named from the entity name": the exact status values and
    numbers, the query service's six messages, command services and their methods' messages, publish and upsert
    topics with their methods and messages) /\ spec_query_settings (the responses of Get / List / Events incl.
-   "events in get"; the default status filters on State.status) *)
+   "events in get"; the default status filters on State.status)
+   /\ spec_list_path /\ spec_list_request (round 4: List is scoped by the declared shard keys - its path
+   parameters and its request fields are the key-typed keys flagged shardKey, primary or not, in declaration
+   order; each key field of the List request is a field of the Get and of the Events request)
+   /\ spec_field_types (round 4: every property of Keys / Data is the declared field: name, type read off the
+   declaration, repeated, primary / tenant / foreign key)
+   /\ spec_member_field_types (the same of the nested message of every event, the request / response message
+   of every command method, the upsert message of every summary, the objects / oneofs of the entity block) *)
 Theorem C17_full : C17_full_statement.
 Proof. intros e Hq. split; [exact (full_all_clauses e Hq)|exact (reserved_rejected e Hq)]. Qed.
 Print Assumptions C17_full.
@@ -241,6 +248,14 @@ Print Assumptions C17_key_flags_sample.
 Theorem C17_field_types_as_declared : forall e cs, compile e = Ok cs -> spec_field_types e cs.
 Proof. exact field_types_as_declared. Qed.
 Print Assumptions C17_field_types_as_declared.
+
+(* ... and of the members (EVERY declaration the model compiles): the nested message of every event, the
+   request and response message of every command method, the upsert message of every summary (after the
+   upsert metadata), the objects and oneofs declared in the entity block hold the declared fields - name,
+   type, repeated, key flags - in declaration order *)
+Theorem C17_member_field_types_as_declared : forall e cs, compile e = Ok cs -> spec_member_field_types e cs.
+Proof. exact member_field_types_as_declared. Qed.
+Print Assumptions C17_member_field_types_as_declared.
 
 Example C17_field_types_sample :
   is_ok (compile field_types_sample) = true
